@@ -7,6 +7,49 @@ TB_COMMON = [
     "IEEE-754 rounding, libm and __powidf2 are modelled (Float instance), not verified; theorems are about the same program text in exact arithmetic (Rat/Real) or about control flow (any Num instance)",
 ]
 
+import json as _json, os as _os, subprocess as _sp, sys as _sys, time as _time
+
+_V = _os.path.dirname(_os.path.abspath(__file__))
+
+def pyprobe(seed, tier, log):
+    """C20: build the cdylib from /repo's current tree, import it into CPython, replay `cavh pycases`."""
+    repo = _os.environ.get("CAV_REPO", "/repo")
+    work = _V + "/work"
+    _os.makedirs(work + "/pymod", exist_ok=True)
+    env = dict(_os.environ, CARGO_NET_OFFLINE="true", RUSTFLAGS="--cfg cavint_verif -Awarnings")
+    t0 = _time.time()
+    p = _sp.run(["cargo", "build", "--release", "--offline", "--lib", "--target-dir", _V + "/harness/target/cdylib"], cwd=repo, env=env,
+                stdout=_sp.PIPE, stderr=_sp.STDOUT, text=True)
+    log.append("cdylib build rc=%d %.1fs" % (p.returncode, _time.time() - t0))
+    if p.returncode != 0:
+        log.append(p.stdout[-2000:]); return None
+    so = _V + "/harness/target/cdylib/release/libcavint.so"
+    _sp.run(["cp", so, work + "/pymod/cavint.so"])
+    cases = "%s/pycases.%d.jsonl" % (work, _os.getpid())
+    rep = "%s/pyprobe.%d.json" % (work, _os.getpid())
+    env2 = dict(_os.environ, CAVH_PYCASES=cases)
+    p = _sp.run([_V + "/harness/target/release/cavh", "pycases", "--seed", str(seed), "--tier", tier, "--out", "/dev/null"], env=env2, stdout=_sp.PIPE, stderr=_sp.STDOUT, text=True)
+    log.append("pycases rc=%d %s" % (p.returncode, p.stdout[-300:]))
+    if p.returncode != 0 or not _os.path.exists(cases):
+        return None
+    p = _sp.run([_sys.executable, _V + "/py/c20_probe.py", work + "/pymod", cases, rep], stdout=_sp.PIPE, stderr=_sp.STDOUT, text=True, timeout=3000)
+    log.append("pyprobe rc=%d %s" % (p.returncode, p.stdout[-500:]))
+    try:
+        r = _json.load(open(rep))
+    except Exception:
+        r = None
+    for f in (cases, rep):
+        try: _os.remove(f)
+        except OSError: pass
+    if p.returncode != 0 and r is not None:
+        # the interpreter died after writing nothing useful
+        r = None
+    if p.returncode != 0 and r is None:
+        # a crash of the interpreter is itself a violation with a replay
+        return {"stream": "pyprobe", "cases": 1, "model_compared": 0, "nontrivial": 0, "exhaustive": False, "rule": "", "hist": {}, "samples": [], "notes": [],
+                "findings": [{"class": "oracle", "props": ["C20"], "kind": "interpreter-crash", "input": "c20_probe.py", "detail": p.stdout[-400:]}]}
+    return r
+
 def P(streams, tb=None, assumptions=None, partial="", extra=None):
     return {"streams": streams, "trusted_base": TB_COMMON + (tb or []),
             "assumptions": assumptions or [], "partial": partial, "extra": extra or []}
@@ -21,6 +64,10 @@ PARSE_TB = ["nom 7.1.3 combinators (tag, alpha1, digit1, fold_many0, verify, alt
 TRI_TB = ["Rc<RefCell<..>> aliasing modelled by an explicit heap with ids (Cav/Model/Sweep.lean); BTreeSet<YEdge> with its state-dependent comparator modelled as a list scanned with the same comparator (exact for <= 11 active edges or a consistent order); BTreeMap of events as a sorted association list; HashSet<Pt> as a list",
           "exact integer oracle harness/src/geo.rs (validity, proper crossing, tiling) written independently of the crate"]
 TRI_AS = ["oracle inputs are integer lattice points (exact i128 predicates); the model is additionally compared on non-finite/signed-zero/1e300 inputs"]
+
+DISP_TB = ["roots::find_root_brent 0.0.7 modelled line by line (Cav/Model/Brent.lean); functions cross the pipe as expression text compiled on both sides",
+           "display dumps are compared through an order-dependent 64-bit hash per vector (NaN payloads canonicalised)"]
+DISP_AS = ["f, c, g are given by expression strings (the closure API is exercised with compile_expression-built closures and must be bit-identical to the string API)"]
 
 PROPS = {
     "C01": P(["quad1d"], tb=QUAD_TB, assumptions=QUAD_AS,
@@ -39,9 +86,27 @@ PROPS = {
              partial="panic-freedom of the model is decided on explored inputs; the deep field-wise `==` of BTreeSet::range's sanity check is modelled by identity only"),
     "C16": P(["tri"], tb=TRI_TB, assumptions=TRI_AS,
              partial="global rejection of every proper crossing is decided by exhaustive enumeration; the theorems cover the local crossing test"),
+    "C07": P(["disp2d"], tb=DISP_TB, assumptions=DISP_AS,
+             partial="'within the sum of the reported estimates' is decided by the exact-antiderivative oracle on polynomial f,c,g; theorems give the chain/additivity and per-piece quadrature identity"),
+    "C08": P(["disp3d"], tb=DISP_TB + TRI_TB, assumptions=DISP_AS,
+             partial="conditional on the tiling (C03); total checked against a closed form for linear/quadratic f and linear c on sets with holes"),
+    "C09": P(["quad2d"], tb=QUAD_TB, assumptions=QUAD_AS,
+             partial="accuracy of the adaptive 2-D loop is explored against a nested Gauss-Legendre reference; theorems cover symmetries, degenerate triangles and the estimate"),
+    "C11": P(["disp2d"], tb=DISP_TB, assumptions=DISP_AS,
+             partial="Brent's |r - root| <= tol is not a theorem (the code returns the previous iterate); maximal monotone pieces are decided by the prescribed-root oracle. KNOWN FINDING: even-order zero of g' on a sampling point (see known_findings.jsonl)"),
+    "C12": P(["disp2d"], tb=DISP_TB, assumptions=DISP_AS, partial="'beyond rounding' clauses explored with ulp budgets"),
+    "C13": P(["disp2d"], tb=DISP_TB, assumptions=DISP_AS,
+             partial="curve end points within a multiple of tol and strict monotonicity per piece are decided by oracles on the prescribed-turning-point class"),
+    "C14": P(["disp3d"], tb=DISP_TB, assumptions=DISP_AS, partial="rounding explored with ulp budgets"),
+    "C17": P(["parse"], tb=PARSE_TB, assumptions=[], partial="Rust stack depth / allocation are outside the model: nesting to 400 (1000 thorough) and 4000-char chains are executed under catch_unwind"),
+    "C18": P(["lists"], tb=PARSE_TB, assumptions=[], partial="'correctly rounded' relies on Rust's str::parse (trusted); compared by bits with the generating data"),
+    "C19": P(["disp2d", "disp3d"], tb=DISP_TB + PARSE_TB + ["T3 translator translate/wiring.py (regex extraction of parameter lists, contexts, closures, config initialisation)"],
+             assumptions=DISP_AS, partial="panic-freedom is decided on explored inputs (inherits C15/C17/C18)"),
+    "C20": P([], tb=["T3 translator translate/wiring.py", "pyo3 0.17 argument extraction / IntoPy / panic trapping: assumed, observed by py/c20_probe.py on CPython with the cdylib built from the current tree"],
+             assumptions=["CPython 3.11 available as python3"], partial="pyo3 is not modelled: the theorems are about the declarations, the behaviour is observed", extra=[pyprobe]),
     "C06": P(["parse", "eval"], tb=PARSE_TB, assumptions=["user-registered names are ASCII words without a case-insensitive nan/inf prefix (CtxOK); see DESIGN C06"],
              partial=""),
-    "C10": P(["quad1d"],
+    "C10": P(["quad1d", "quad2d"],
              tb=QUAD_TB, assumptions=QUAD_AS,
              partial="non-negativity of the estimate and 'NaN sample never ok' are arithmetic facts: proved in exact arithmetic / under NaN-absorption laws, explored at Float"),
 }
@@ -94,5 +159,30 @@ LEVEL_TEXT = {
         "technique": "Lean 4 structural induction on the iteration budget + bit-exact model/implementation correspondence",
     },
 }
+
+LEVEL_TEXT.update({
+    "C07": {"text": "Theorems: pieces of an interval form a chain from a to b (every Num instance), so any additive interval functional sums over the pieces to its value on [a,b]; each piece's value is gk1d over exactly that piece with integrand f*g' (g built by the generated AD composition), none when integration is off; several intervals are independent. With C01/C02 this gives accuracy for polynomial f,c. The Disp2D model equals the implementation bit-for-bit on every public field; exact polynomial antiderivative oracle for totals and pieces, both directions, interval lists.",
+            "note": "Trusts: Lean kernel, Brent/BTreeSet models, harness. 'Within the reported estimates' is explored.", "technique": "Lean 4 structural theorems over the display model + bit-exact correspondence + exact-antiderivative oracle"},
+    "C08": {"text": "Per-triangle integrand identity and offset invariance of the Jacobian (theorems); 3-D model (sweep + triangle quadrature + AD Jacobian) equals the implementation bit-for-bit incl. integ values; totals compared with a closed form (affine Jacobian determinant, degree<=4 exact cubature over the even-odd region) on polygon sets with holes under symmetries.",
+            "note": "Conditional on the tiling (C03, exhaustive exploration).", "technique": "Lean 4 theorems + bit-exact correspondence + closed-form oracle"},
+    "C09": {"text": "Theorems (Rat): estimate non-negative for both orientations, outer swap negates, triangle factor permutation-invariant, degenerate triangle gives (0,0), 2-D tiling sum; structural honesty (C10). Model equals implementation bit-for-bit on logged integrand traces; nested Gauss-Legendre reference for accuracy, permutation, subdivision, reversal.",
+            "note": "Adaptive accuracy explored.", "technique": "Lean 4 theorems over the quadrature model + trace-replay correspondence"},
+    "C11": {"text": "Chain theorem (every Num instance): first piece starts at a, consecutive pieces share end points, last ends at b; Brent bracket/hull invariants and split lemmas (Thm/C11Brent); model equals implementation on displays and on split_strictly_monotone directly. Oracle: g' with prescribed simple roots and off-grid even-order zeros, m=0..4, both directions, x_res 8..400, tol 1e-6..1e-12: piece count, boundaries within tol (+ conditioning of g'), monotone pieces.",
+            "note": "Genuine defect (on-grid exact-zero saddle) repaired by fix commit 1409bd8; residual class recorded as known finding.", "technique": "Lean 4 theorems + bit-exact correspondence + prescribed-root oracle"},
+    "C12": {"text": "Theorems: vector lengths max(res+1,2), exact end points, linspace formula, fv/gv/dgv are f, g=x-c(f)+c(0), g' at the abscissae (generated AD composition), curve indices start at 0, end at the last sample, never decrease, count interm_cs+2; curve points (r f(x_i), g(x_i)+c(r f)-c(0)); offset invariance in exact arithmetic. Model equals implementation bit-for-bit for resolutions 0..64 incl. interm_cs > x_res; oracle recomputes every relation with ulp budgets and offset cases.",
+            "note": "Rounding explored.", "technique": "Lean 4 theorems over the display model + bit-exact correspondence"},
+    "C13": {"text": "Chain theorem for the Riemann-Stieltjes display, sorting/clustering lemmas for coincident turning points (Thm/C13Split), gv = g + k and dgv = g' by construction of the model; model equals implementation bit-for-bit; oracle on polynomials with prescribed (possibly shared) turning points: piece count, boundaries, monotone pieces, finite curve points, curve start exact, curve end on the graph within a multiple of tol.",
+            "note": "Brent accuracy not a theorem.", "technique": "Lean 4 theorems + bit-exact correspondence + prescribed-turning-point oracle"},
+    "C14": {"text": "Theorems: mesh/curtain shapes, top mesh is the graph of f, bottom mesh its image under (x,y)-c(f)+c(0), curtain edges coincide with the outer rings, columns are c-translates, offset invariance (exact arithmetic). Model equals implementation bit-for-bit for resolutions 0..32 with c(0) != 0; oracle recomputes every relation.",
+            "note": "Genuine defect (bottom mesh offset by c(0)) repaired by fix commit 6510f8e.", "technique": "Lean 4 theorems over the 3-D display model + bit-exact correspondence"},
+    "C17": {"text": "Theorems for ALL strings: parse_sound (every accepted string is in the grammar), fuel_suffices/compile_ne_outOfFuel (termination), compile_vars_lt_arity + eval_in_bounds (no out-of-range index), rejection corollaries (empty, unbalanced, '--', trailing/leading operator, '(' followed by * / ^ ), operator followed by * / ^, unknown name, function without call, variable with arguments, context index >= arity, residue). Model equals implementation on exhaustive token strings, mutations, Unicode, deep nesting; independent recogniser of the intended grammar.",
+            "note": "Rust recursion depth/allocation executed, not modelled.", "technique": "Lean 4 soundness proof of the parser model w.r.t. an inductive grammar + exhaustive token-string correspondence"},
+    "C18": {"text": "Theorems: intervals_sound / polygons_sound (accepted text is exactly a comma-separated list of bracketed pairs / bracketed lists of pairs of constant expressions, order and nesting preserved, at least one element), empty rejected, no panic for ANY context (after the repair). Model equals implementation; round-trip of shortest-repr doubles, exponent notation, constant expressions, Unicode whitespace, structural corruptions.",
+            "note": "Genuine defect (index panic with a variable-binding context) repaired by fix commit 4ebe722.", "technique": "Lean 4 soundness proof of the list parsers + bit-exact round-trip correspondence"},
+    "C19": {"text": "Kernel-decided wiring theorems on data regenerated from standardized_gui_methods.rs: config fields initialised from same-named parameters, x->0 / y->1 / y->0 / z->0 bindings, variable-free interval/polygon contexts, closure argument order, delegate functions; error-stage theorem. String API vs closure API bit-identical on every case; string API vs Lean API model; arbitrary strings and configurations incl. tol in {0, NaN, inf, negative}, limits 0.",
+            "note": "Panic-freedom explored.", "technique": "Lean 4 decide on translator-generated wiring + differential check string API / closure API / model"},
+    "C20": {"text": "Kernel-decided facts on regenerated declarations: module name and registrations, Python names, forwarding identity of all ten arguments per shim, parameter types, getter coverage, RuntimeError mapping. CPython probe: the cdylib built from the current tree is imported and every attribute of every returned object is compared by bit pattern with the Rust API for ~300 argument tuples (valid, malformed, extreme configs) plus wrong arity/types; any non-RuntimeError exception or crash is a violation.",
+            "note": "pyo3 assumed, observed.", "technique": "Lean 4 decide on generated declarations + in-process CPython differential probe"},
+})
 
 NOT_APPLICABLE = {}
